@@ -1,7 +1,8 @@
 (* C02: concrete tasks on which EVERY premise of the headline theorems is discharged (non-vacuity,
-   audit A1 / cross-cutting observation C.1), and the witness of the class excluded by
-   [outputs_occur] (audit A4, finding F17): an output predicate declared in the user guide that
-   does not occur in one program, verified in one direction only. *)
+   audit A1 / cross-cutting observation C.1), and the regression witness of finding F17 (audit A4;
+   repaired by /repo <COMMIT-F17>): an output predicate declared in the user guide that does not occur in
+   one program, verified in one direction only - the program side now carries the empty completed
+   definition and the task IS refuted. *)
 From Coq Require Import List Ascii String ZArith NArith Bool Lia Classical_Prop.
 From Anthem Require Import Base.ISet Syntax.Fol Syntax.Asp Sem.Domain Sem.Sat Sem.AspRef
   Model.Problem Model.Outline Model.Strong Model.External Model.Tightness Model.PrivRec Model.TauStar
@@ -12,51 +13,6 @@ From Anthem Require Import Base.ISet Syntax.Fol Syntax.Asp Sem.Domain Sem.Sat Se
 Import ListNotations.
 Open Scope string_scope.
 Open Scope list_scope.
-
-(* ---------- a stable model is empty on predicates that head no rule and are not facts ---------- *)
-Lemma bformula_sat_mono H T sg b : sub H T -> bformula_sat H T sg b -> bformula_sat T T sg b.
-Proof.
-  intros Hs. destruct b as [[[| |] a]|c]; cbn; auto.
-  intros [vs [Hv Hh]]. exists vs. split; [exact Hv|apply Hs; exact Hh].
-Qed.
-Lemma body_sat_mono H T sg b : sub H T -> body_sat H T sg b -> body_sat T T sg b.
-Proof. intros Hs Hb. unfold body_sat in *. eapply Forall_impl; [|exact Hb]. intros x. apply bformula_sat_mono, Hs. Qed.
-
-Theorem stable_nonhead_empty (T : pint) (P : program) (F : pint) (p : string) (a : list gval) :
-  stable T P F ->
-  (forall r, In r P -> head_pred (rhead r) <> Some (mkpred p (List.length a))) ->
-  ~ F p a -> ~ T p a.
-Proof.
-  intros [[HTT HF] Hmin] Hnh HnF HT.
-  set (H := fun p' a' => T p' a' /\ ~ (p' = p /\ a' = a)).
-  assert (Hsub : sub H T) by (intros p' a' [Hx _]; exact Hx).
-  assert (Hx : H p a); [|destruct Hx as [_ Hx]; apply Hx; auto].
-  apply (Hmin H Hsub); [| |exact HT].
-  - intros r Hr sg. split; [|exact (proj2 (HTT r Hr sg))].
-    intros Hb. apply (body_sat_mono H T sg _ Hsub) in Hb. pose proof (proj2 (HTT r Hr sg) Hb) as Hh.
-    specialize (Hnh r Hr). destruct (rhead r) as [a0|a0|]; cbn in *; [| |exact Hh].
-    + intros vs Hv. split; [apply Hh; exact Hv|]. intros [E1 E2]. apply Hnh. unfold atom_pred.
-      rewrite E1, <- E2, (tuple_vals_length _ _ _ Hv). reflexivity.
-    + intros vs Hv. destruct (Hh vs Hv) as [Hw|Hw]; [left|right; exact Hw].
-      split; [exact Hw|]. intros [E1 E2]. apply Hnh. unfold atom_pred.
-      rewrite E1, <- E2, (tuple_vals_length _ _ _ Hv). reflexivity.
-  - intros p' a' Hf. split; [apply HF; exact Hf|]. intros [-> ->]. exact (HnF Hf).
-Qed.
-
-(* for external stable models: a public predicate that is neither an input nor the head of a rule
-   of P - e.g. an output predicate that does not occur in P - is empty *)
-Theorem ext_stable_nonhead_empty (t : ext_task) (FI : fint) (N : pint) (P : program) (q : pred) :
-  ext_stable_full t FI N P ->
-  (forall r, In r P -> head_pred (rhead r) <> Some q) -> ~ In q (task_inputs t) ->
-  In q (ext_voc t P) ->
-  forall d, List.length d = parity q -> ~ N (psym q) d.
-Proof.
-  intros Hst Hnh Hni Hv d Hd HN. destruct q as [p n]. cbn in *. subst n.
-  apply (stable_nonhead_empty _ _ _ p d Hst).
-  - intros r' Hr' Hh. destruct (ph_in_heads FI _ P r' _ Hr' Hh) as [r [Hr Hh']]. exact (Hnh r Hr Hh').
-  - intros [_ Hin]. exact (Hni Hin).
-  - split; [exact HN|exact Hv].
-Qed.
 
 (* ---------- propositional tasks ---------- *)
 Definition p0 (p : string) : bformula := BLit (mklit SNone (mkatom p [])).
@@ -112,8 +68,9 @@ Qed.
 
 (* ===== t17 (finding F17): specification  out :- in.  out2 :- in.     program  out :- in.
          input: in/0.  output: out/0.  output: out2/0.   direction FORWARD.
-         The program never produces out2, the specification does whenever in holds; the only
-         emitted problem has the conjecture out <-> in, which is among its axioms. ===== *)
+         The program never produces out2, the specification does whenever in holds.  Before
+         /repo <COMMIT-F17> the only emitted problem had the conjecture out <-> in, which is among its
+         axioms; now a second problem has the conjecture out2 <-> #false. ===== *)
 Definition L17 : program := [ r0 "out" [p0 "in"]; r0 "out2" [p0 "in"] ].
 Definition R17 : program := [ r0 "out" [p0 "in"] ].
 Definition t17 : ext_task :=
@@ -125,7 +82,7 @@ Definition pbs17 : list problem :=
 Definition lft17 := match tlf t17 L17 with Some l => l | None => [] end.
 Definition rgt17 := match trf t17 with Some l => l | None => [] end.
 
-Lemma t17_accepted : external_decompose_full full_fuel t17 = XOk [] pbs17 /\ List.length pbs17 = 1.
+Lemma t17_accepted : external_decompose_full full_fuel t17 = XOk [] pbs17 /\ List.length pbs17 = 2.
 Proof. split; vm_compute; reflexivity. Qed.
 Lemma t17_left : tlf t17 L17 = Some lft17. Proof. vm_compute. reflexivity. Qed.
 Lemma t17_right : trf t17 = Some rgt17. Proof. vm_compute. reflexivity. Qed.
@@ -135,11 +92,18 @@ Lemma t17_no_clash :
 Proof. apply task_no_clashb_spec. vm_compute. reflexivity. Qed.
 Lemma t17_outputs_missing : ~ outputs_occur t17.
 Proof. intros H. apply outputs_occurb_spec in H. vm_compute in H. discriminate. Qed.
-Lemma t17_irrefutable FI M : ~ refutes_some FI M pbs17.
+(* since /repo <COMMIT-F17> the program side carries  out2 <-> #false : the second forward problem has it
+   as conjecture and M17 refutes it *)
+Lemma t17_right_has_empty_definition :
+  In (FBin CIff (FAtomic (AAtom "out2" [])) (FAtomic AFalse)) (map an_formula rgt17).
+Proof. vm_compute. auto. Qed.
+Lemma t17_refuted FI : refutes_some FI M17 pbs17.
 Proof.
-  remember pbs17 as l eqn:E. vm_compute in E. subst l.
-  intros [p [[<-|[]] [Hax [c [Hc Hn]]]]]. cbn in Hc. destruct Hc as [<-|[]].
-  apply Hn. apply (Hax _ (or_introl eq_refl)).
+  remember pbs17 as l eqn:E. vm_compute in E. subst l. eexists. split; [right; left; reflexivity|]. split.
+  - intros a Ha. cbn in Ha.
+    repeat (destruct Ha as [<-|Ha]; [intros e; cbn; unfold M17, Mof; cbn; intuition congruence|]). destruct Ha.
+  - eexists. split; [cbn; left; reflexivity|]. intros H. specialize (H (mkenv (fun _ => VInf) (fun _ => 0%Z) (fun _ => ""))).
+    cbn in H. unfold M17, Mof in H. cbn in H. intuition congruence.
 Qed.
 Lemma t17_left_stable FI : ext_stable_full t17 FI M17 L17.
 Proof.
@@ -152,7 +116,6 @@ Proof.
   apply (translate_meaning_full full_fuel t17 L17 G th (proj1 t17_tight)); auto.
   - intros r h Hr Hh Hin. vm_compute in Hin. destruct Hin as [<-|[]].
     destruct Hr as [<-|[<-|[]]]; vm_compute in Hh; discriminate.
-  - apply outputs_occur_inb_spec. vm_compute. reflexivity.
   - subst th. intros f Hf. vm_compute in Hf. destruct Hf as [<-|[<-|[]]]; intros e; cbn; unfold M17, Mof; cbn; intuition.
 Qed.
 Lemma t17_right_cannot FI :
@@ -203,7 +166,7 @@ Lemma t6_full_rhs FI :
    ext_stable_full t6 FI (reindex (task_mapping t6) M6) (et_program t6) /\ ~ ext_stable_full t6 FI M6 L6).
 Proof.
   exact (proj1 (C02_full_proof full_fuel t6 L6 [] pbs6 lft6 rgt6 eq_refl eq_refl t6_accepted
-                  (proj1 t6_tight) (proj2 t6_tight) t6_left t6_right t6_outputs_occur t6_no_clash FI M6
+                  (proj1 t6_tight) (proj2 t6_tight) t6_left t6_right t6_no_clash FI M6
                   (t6_ug FI M6) (t6_assumptions_left FI) (t6_assumptions_right FI M6)) (t6_refuted FI)).
 Qed.
 Lemma t6_behaviour_rhs FI :
@@ -215,7 +178,21 @@ Lemma t6_behaviour_rhs FI :
    ~ exists N, pub_agree t6 N M6 /\ ext_stable_full t6 FI N L6).
 Proof.
   exact (C02_countermodel_proof full_fuel t6 L6 [] pbs6 lft6 rgt6 eq_refl eq_refl t6_accepted
-           (proj1 t6_tight) (proj2 t6_tight) t6_left t6_right t6_outputs_occur t6_no_clash FI M6 (t6_refuted FI)).
+           (proj1 t6_tight) (proj2 t6_tight) t6_left t6_right t6_no_clash FI M6 (t6_refuted FI)).
+Qed.
+
+(* t17 through the theorem (no class premise any more): the refutation yields the forward
+   behavioural difference *)
+Lemma t17_behaviour_rhs FI :
+  (dir_forward (et_direction t17) = true /\
+   ext_stable_full t17 FI M17 L17 /\
+   ~ exists N, pub_agree t17 N (reindex (task_mapping t17) M17) /\ ext_stable_full t17 FI N (et_program t17)) \/
+  (dir_backward (et_direction t17) = true /\
+   ext_stable_full t17 FI (reindex (task_mapping t17) M17) (et_program t17) /\
+   ~ exists N, pub_agree t17 N M17 /\ ext_stable_full t17 FI N L17).
+Proof.
+  exact (C02_countermodel_proof full_fuel t17 L17 [] pbs17 lft17 rgt17 eq_refl eq_refl (proj1 t17_accepted)
+           (proj1 t17_tight) (proj2 t17_tight) t17_left t17_right t17_no_clash FI M17 (t17_refuted FI)).
 Qed.
 
 (* ===== t8: both sides have a private q/0 (the program's is renamed q_p in the problems)
@@ -257,7 +234,7 @@ Qed.
 Lemma t8_difference FI : exists T, behavioural_difference t8 L8 FI T.
 Proof.
   apply (proj1 (external_equivalence_iff full_fuel t8 L8 [] pbs8 lft8 rgt8 eq_refl eq_refl (proj1 t8_accepted)
-                  (proj1 t8_tight) (proj2 t8_tight) t8_left t8_right t8_outputs_occur t8_no_clash
+                  (proj1 t8_tight) (proj2 t8_tight) t8_left t8_right t8_no_clash
                   t8_rename_faithful t8_ug_over_inputs FI)).
   exists M8. exact (t8_refuted FI).
 Qed.
@@ -265,7 +242,7 @@ Lemma t8_complete FI : exists T M, behavioural_difference t8 L8 FI T /\ pub_agre
 Proof.
   destruct (t8_difference FI) as [T HT]. exists T.
   destruct (countermodel_complete full_fuel t8 L8 [] pbs8 lft8 rgt8 eq_refl eq_refl (proj1 t8_accepted)
-              (proj1 t8_tight) (proj2 t8_tight) t8_left t8_right t8_outputs_occur t8_no_clash
+              (proj1 t8_tight) (proj2 t8_tight) t8_left t8_right t8_no_clash
               t8_rename_faithful t8_ug_over_inputs FI T HT) as [M HM].
   exists M. split; [exact HT|exact HM].
 Qed.
